@@ -653,9 +653,10 @@ func (g *groundCtx) jumpTests() {
 
 // ---- C19: constants and stubs across build targets ----
 
-// quick: the five Linux architectures that matter (four with tables, one without) and one target of every other
+// quick: the Linux architectures that matter (four with tables, one without, and two of the mips family - the only
+// Linux ports whose errno numbering differs from asm-generic: ENOSYS is 89 there) and one target of every other
 // operating system of `go tool dist list` (build constraints usually select files per operating system); thorough: all.
-var quickTargets = []string{"linux/amd64", "linux/386", "linux/arm", "linux/arm64", "linux/riscv64", "darwin/arm64", "windows/amd64",
+var quickTargets = []string{"linux/amd64", "linux/386", "linux/arm", "linux/arm64", "linux/riscv64", "linux/mips", "linux/mips64le", "darwin/arm64", "windows/amd64",
 	"freebsd/amd64", "openbsd/amd64", "netbsd/arm64", "dragonfly/amd64", "solaris/amd64", "illumos/amd64", "aix/ppc64", "plan9/amd64",
 	"js/wasm", "wasip1/wasm", "android/arm64", "ios/arm64"}
 
@@ -756,6 +757,12 @@ func (g *groundCtx) constantsAllTargets(tier string) {
 					continue
 				}
 				n++
+				if ref != cur[k] && strings.HasPrefix(r.target, "linux/mips") && mipsENOSYS(cur[k], ref) {
+					// the mips ports number ENOSYS 89 (arch/mips/include/uapi/asm/errno.h; see ground.const.errnoENOSYS):
+					// the first sentence of C19 wants the kernel's value there. No program can contain it: mips has no
+					// syscall table, so compilation fails with the unsupported-architecture error (ground.unsupported).
+					continue
+				}
 				if ref != cur[k] && len(diffs) < 6 {
 					diffs = append(diffs, fmt.Sprintf("%s: %s here, %s on linux/amd64", k, cur[k], ref))
 				}
@@ -779,6 +786,14 @@ func (g *groundCtx) constantsAllTargets(tier string) {
 		g.targetChecks(r.target, r.eng, uapi)
 	}
 	g.add("targets", "targets#ground.count", fmt.Sprintf("build targets examined: %d of %d type-check", built, len(targets)), built >= 5, "too few targets built", token.NoPos)
+}
+
+// mipsENOSYS: the two values differ exactly by ENOSYS being 89 instead of 38 in the low 16 bits (the return data of an
+// errno action) - the only difference the kernel's mips errno table makes to the library's constant expressions.
+func mipsENOSYS(cur, ref string) bool {
+	c, err1 := strconv.ParseUint(cur, 0, 64)
+	r, err2 := strconv.ParseUint(ref, 0, 64)
+	return err1 == nil && err2 == nil && c&0xffff == 89 && r&0xffff == 38 && c>>16 == r>>16
 }
 
 func (g *groundCtx) targetChecks(target string, en *Engine, uapi map[string]uint64) {
